@@ -2,6 +2,7 @@ package main
 
 import (
 	"go/token"
+	"go/types"
 	"strings"
 
 	"golang.org/x/tools/go/ssa"
@@ -43,8 +44,11 @@ func runC12(p *Program, e *Engine, r *Result, tier string) {
 	c12Acquire(a, tf, ro.API["AddWith"])
 	// (5) no listed path without a kernel watch: kernel-says-gone records remove both entries (shared with C09.1)
 	if df := decodeFacts(a); df != nil {
-		if w, _, hctx, entry, watchLit, maskSubj := handlerFrame(a, df, tf); hctx != nil {
+		if w, hv0, hctx, entry, watchLit, maskSubj := handlerFrame(a, df, tf); hctx != nil {
 			c09Cleanup(a, tf, hctx, entry, *watchLit, watchLit.A.Subj, maskSubj, collectTableOps(a, tf, w), "C12.5")
+			// (7) a watch whose file was renamed away is released (otherwise rename cycles accumulate kernel watches and
+			// entries under dead names): shared with C09.2
+			c09MoveSelf(a, df, tf, hv0, hctx, entry, *watchLit, watchLit.A.Subj, maskSubj, "C12.7")
 		}
 	}
 	c04Replace(a, tf, ro.API["AddWith"], "C12.6")
@@ -250,6 +254,122 @@ func keyContainers(w *Walker, op tableOp) ([]cv, string, bool) {
 		return nil, "the descriptor is put into a slice, but not when " + stripIDs(ctr), false
 	}
 	return out, how, true
+}
+
+// sliceInserted follows a slice backwards (appends, phis, variable cells, results of inlined helpers on their live returns,
+// parameters) and returns the values that are put into it as elements. complete=false when a source was not understood.
+func sliceInserted(c *Ctx, v ssa.Value) (out []cv, complete bool) {
+	complete = true
+	seen := map[cv]bool{}
+	arrayStores := func(c *Ctx, al *ssa.Alloc) {
+		if refs := al.Referrers(); refs != nil {
+			for _, r := range *refs {
+				if ia, ok := r.(*ssa.IndexAddr); ok {
+					if rr := ia.Referrers(); rr != nil {
+						for _, u := range *rr {
+							if st, ok := u.(*ssa.Store); ok && st.Addr == ssa.Value(ia) {
+								out = append(out, cv{c, st.Val})
+							}
+						}
+					}
+				}
+			}
+		}
+	}
+	var rec func(c *Ctx, v ssa.Value, depth int)
+	rec = func(c *Ctx, v ssa.Value, depth int) {
+		v = stripConv(v)
+		x := cv{c, v}
+		if seen[x] || depth > 40 {
+			return
+		}
+		seen[x] = true
+		switch t := v.(type) {
+		case *ssa.Const, *ssa.MakeSlice:
+			return
+		case *ssa.Phi:
+			for _, e := range t.Edges {
+				rec(c, e, depth+1)
+			}
+		case *ssa.Slice:
+			if al, ok := t.X.(*ssa.Alloc); ok {
+				if _, isArr := deref(al.Type()).Underlying().(*types.Array); isArr {
+					arrayStores(c, al)
+					return
+				}
+			}
+			rec(c, t.X, depth+1)
+		case *ssa.UnOp:
+			if rv, rc := c.resolve(t); rv != ssa.Value(t) || rc != c {
+				rec(rc, rv, depth+1) // the store that reaches this load (result cells spilled for a defer, say)
+				return
+			}
+			if al, ok := t.X.(*ssa.Alloc); ok && t.Op == token.MUL {
+				for _, st := range cellStores(al) {
+					rec(c, st.Val, depth+1)
+				}
+				return
+			}
+			complete = false
+		case *ssa.Parameter:
+			if b, ok := c.Bind[t]; ok {
+				rec(b.Ctx, b.Val, depth+1)
+				return
+			}
+			complete = false
+		case *ssa.Extract:
+			if call, ok := t.Tuple.(*ssa.Call); ok {
+				if !liveReturns(c, call, t.Index, func(k *Ctx, r ssa.Value) { rec(k, r, depth+1) }) {
+					complete = false
+				}
+				return
+			}
+			complete = false
+		case *ssa.Call:
+			if bi, ok := t.Call.Value.(*ssa.Builtin); ok && bi.Name() == "append" {
+				for _, a := range t.Call.Args {
+					rec(c, a, depth+1)
+				}
+				return
+			}
+			if !liveReturns(c, t, 0, func(k *Ctx, r ssa.Value) { rec(k, r, depth+1) }) {
+				complete = false
+			}
+		default:
+			complete = false
+		}
+	}
+	rec(c, v, 0)
+	return out, complete
+}
+
+// liveReturns calls f with the idx-th result of every return of the inlined callee that is reachable under the
+// call's bindings (constant arguments fold the callee's branches).
+func liveReturns(c *Ctx, call *ssa.Call, idx int, f func(*Ctx, ssa.Value)) bool {
+	k := c.calleeCtx(call, &call.Call)
+	if k == nil {
+		return false
+	}
+	conds, err := k.conds()
+	if err != nil {
+		return false
+	}
+	n := 0
+	for _, b := range k.Fn.Blocks {
+		if len(b.Instrs) == 0 {
+			continue
+		}
+		r, ok := b.Instrs[len(b.Instrs)-1].(*ssa.Return)
+		if !ok || idx >= len(r.Results) {
+			continue
+		}
+		if d, ok := conds[b]; !ok || d.isFalse() {
+			continue
+		}
+		n++
+		f(k, r.Results[idx])
+	}
+	return n > 0
 }
 
 // sliceElements follows slices forward (append, phi, local variable cells, reslicing, returns to the calling context,
